@@ -111,7 +111,7 @@ def run(pid, path, quiet=False):
             print('observed:', outs, inits)
             print('model   :', line)
             _, body, m_inits = line.split('\t')
-            nq = sum(1 for o in case['ops'] if o[0] in ('q', 'infself'))
+            nq = sum(1 for o in case['ops'] if o[0] in ('q', 'infself', 'qe'))
             model = (body.split('|') + [''] * nq)[:nq] if nq else []
             if outs != model or str(inits) != m_inits:
                 report.violations.append(('registry history still differs', payload))
@@ -139,9 +139,15 @@ def run(pid, path, quiet=False):
         else:
             cfg = Q_OPTS.get(pid, dict(opts={'caching': (False, True), 'evals': 2}, judge={}))
             jk = dict(cfg['judge'])
+            if case.get('set_level'):
+                # (a case of a stream that is compared as a SET of rows, whatever the property's main stream does)
+                jk.pop('ordered', None)
+                cfg = {**cfg, 'opts': {k: v for k, v in cfg['opts'].items() if k != 'ordered'}}
             if pid == 'C06' or case.get('quant') == 'the':
                 jk['expected'] = props_q2.the_expected
-            if pid in props_q2.REPLAY_JUDGES:
+            if pid == 'C17' and case.get('set_level'):
+                judge = props_q2.J17(report, findings, 'C17')
+            elif pid in props_q2.REPLAY_JUDGES:
                 judge = props_q2.REPLAY_JUDGES[pid](report, findings)
             elif 'operand_quant' in case:
                 # a sub-query in OPERAND position (C15's second stream): rows against the oracle of the explicit twin only
